@@ -272,7 +272,7 @@ func finish(testCode int) int {
 				violations++
 				continue
 			}
-			if !replayMode && s.body != nil {
+			if !replayMode && s.body != nil && f.Key != "process-crash" {
 				// replay rule: the recorded choice sequence must fail again, identically, twice
 				ok := true
 				for r := 0; r < 2; r++ {
